@@ -518,6 +518,8 @@ def g_add_network_service(w, rng, st):
     kw = gen_good_kwargs(rng, 'service') if rng.random() < 0.3 else {}
     s = {'name': pick_name(rng, W.SVC_NAMES, existing), 'nstype': nstype, 'ifs': ifs, 'id': maybe_id(w, rng, st),
          'kw': kw}
+    if rng.random() < 0.2:
+        s['ifs_as'] = rng.choice(['tuple', 'generator'])     # the interfaces need not come as a list
     if rng.random() < 0.15:
         s['site'] = rng.choice(W.SITES)
     return s
@@ -527,6 +529,10 @@ def g_add_network_service(w, rng, st):
 def x_add_network_service(w, s, st, info):
     from fim.slivers.network_service import ServiceType
     ifs = [get_iface(w, r) for r in s['ifs']]
+    if s.get('ifs_as') == 'tuple':
+        ifs = tuple(ifs)
+    elif s.get('ifs_as') == 'generator':
+        ifs = (i for i in list(ifs))
     kw = build_ctor_kwargs(s['kw'])
     if s.get('site'):
         kw['site'] = s['site']
@@ -1542,6 +1548,16 @@ def failing_variants(w, rng, st):
                             'kind': kind, 'ref': ref, 'vals': {k: v for k, v in items}, 'order': [k for k, _ in items]})
         out.append({'template': 'set_property_bad', 'pos': kind, 'call': 'set_properties_raw', 'kind': kind, 'ref': ref,
                     'vals': {'labels': 12}, 'order': ['labels'], 'single': True})
+    # ---- calls through the object of an element that is no longer in the model (removed through another object):
+    # they are refused, and like every refused call they leave nothing behind. The template creates the element,
+    # keeps its object, removes the element and then calls through the kept object.
+    host = [n for n in nodes if st.typ(n) in ('VM', 'Server')]
+    if host:
+        hn = st.name(rng.choice(host))
+        for what in ('service_add_interface', 'port_add_child', 'node_add_component', 'node_add_service',
+                     'component_object'):
+            out.append({'template': 'stale_object', 'pos': what, 'call': 'stale', 'what': what, 'node': hn,
+                        'ids': [nid(), nid(), nid(), nid(), nid(), nid()]})
     # ---- peering / removal of absent things
     peerable = [x for x in tops if st.typ(x) in ('L3VPN', 'FABNetv4', 'FABNetv6', 'L2STS', 'L2Bridge')]
     if peerable:
@@ -1639,6 +1655,39 @@ def x_failing(w, s, st, info):
         from fim.slivers.network_service import ServiceType
         ifs = [resolve_ref(w, r) for r in s['ifs']]
         w.topo.add_network_service(name=s['name'], nstype=ServiceType[s['nstype']], interfaces=ifs, node_id=s['id'])
+    elif call == 'stale':
+        from fim.slivers.network_service import ServiceType
+        from fim.slivers.interface_info import InterfaceType
+        from fim.slivers.capacities_labels import Labels
+        from fim.slivers.network_node import NodeType
+        sub_ = w.cfg['flavour'] == 'substrate'
+        ids = list(s['ids'])
+        n = get_node(w, s['node'])
+        what = s['what']
+        if what == 'service_add_interface':
+            sv = n.add_network_service(name='staleNs', nstype=ServiceType.MPLS if sub_ else ServiceType.OVS, node_id=ids[0])
+            n.remove_network_service(name='staleNs')
+            sv.add_interface(name='tpS', itype=InterfaceType.TrunkPort, node_id=ids[1])
+        elif what == 'node_add_component' or what == 'node_add_service':
+            n2 = w.topo.add_node(name='staleNode', site='UKY', node_id=ids[0], ntype=NodeType.Server)
+            w.topo.remove_node(name='staleNode')
+            if what == 'node_add_component':
+                if sub_:
+                    n2.add_component(name='nicS', model_type=w.cmt('GPU_RTX6000'), node_id=ids[1])
+                else:
+                    n2.add_component(name='nicS', model_type=w.cmt('SmartNIC_ConnectX_6'), node_id=ids[1])
+            else:
+                n2.add_network_service(name='nsS', nstype=ServiceType.MPLS if sub_ else ServiceType.OVS, node_id=ids[1])
+        else:
+            if sub_:
+                raise SkipStep()
+            c = n.add_component(name='staleNic', model_type=w.cmt('SmartNIC_ConnectX_6'), node_id=ids[0])
+            port = c.interface_list[0]
+            n.remove_component(name='staleNic')
+            if what == 'port_add_child':
+                port.add_child_interface(name='subS', node_id=ids[1], labels=Labels(vlan='777'))
+            else:
+                c.set_property('details', 'written through the object of a removed component')
     elif call == 'connect_interface' and special_ref(s['iface']):
         get_service(w, s['svc'], fresh=True).connect_interface(resolve_ref(w, s['iface']))
     elif call == 'add_link' and any(special_ref(r) for r in s.get('ifs', [])):
